@@ -14,7 +14,7 @@ static struct cstl_heap H[2];
 static int cur;
 static unsigned char held[MAXN + 1];
 
-static int cmp(const void *a, const void *b, void *p) { (void)p; return ((const struct el *)a)->prio - ((const struct el *)b)->prio; }
+static int cmp(const void *a, const void *b, void *p) { e_check_priv(p); return ((const struct el *)a)->prio - ((const struct el *)b)->prio; }
 static int id_of_el(const void *e)
 {
     uintptr_t d;
@@ -56,8 +56,8 @@ static void drv_header(jb_t *b)
 static void drv_reset(void)
 {
     int i;
-    cstl_heap_init(&H[0], cmp, NULL, offsetof(struct el, n));
-    cstl_heap_init(&H[1], cmp, NULL, offsetof(struct el, n));
+    cstl_heap_init(&H[0], cmp, E_PRIV, offsetof(struct el, n));
+    cstl_heap_init(&H[1], cmp, E_PRIV, offsetof(struct el, n));
     cur = 0;
     for (i = 0; i <= N; i++) { memset(&pool[i].n, 0, sizeof pool[i].n); held[i] = 0; }
 }
